@@ -23,12 +23,16 @@ ASSUMPTION = ("product model CoFull (walks): NMT, heartbeat producer and two con
               "expedited SDO access to the configuration objects - all in one node with one timer pool of 16 and one NMT mode; the component step "
               "operators are the ones of the per-property models (INSTANCE); every walk ends with a look at every service, a reset communication "
               "and the same look again; TLC checks on every step: the components agree on the mode, reset = fresh start of the whole product, "
-              "service frames only in permitted states, never more armed actions than timer slots; two configurations (node id 5 / 127, producers on / off at boot, PDO types 254+2 / 255+1, dummy mapping, EMCY tables of 4 / 12 errors)")
+              "service frames only in permitted states, never more armed actions than timer slots - on every step of every walk, and exhaustively (breadth-first) for a reduced alphabet of 18 (thorough: 22) letters; two configurations (node id 5 / 127, producers on / off at boot, PDO types 254+2 / 255+1, dummy mapping, EMCY tables of 4 / 12 errors)")
 
 def run(ctx, num, depth=45, cfg="Full_walk.cfg", label="product_walks", module="MCFull"):
     if ASSUMPTION not in ctx.assumptions:
         ctx.assumptions.append(ASSUMPTION)
     pre = node_common.make_preamble(fix)
+    if module == "MCFull" and cfg == "Full_walk.cfg":
+        # exhaustive search of the product over a small alphabet (one letter per service + the events that couple them): InvFull on every
+        # reachable state (quick: 18 letters, 5 * 10^4 states; thorough: 22 letters, 1.2 * 10^6 states / 1.4 * 10^7 transitions)
+        ctx.mc("MCFull", "Full_mc.cfg" if ctx.tier == "quick" else "Full_mct.cfg", timeout=1500, heap="16g")
     seed0 = ctx.seed
     ctx.seed = seed0 * 100 + int(ctx.pid[1:])          # every property gets its own walks
     try:
